@@ -9,10 +9,13 @@
    critical sections of m_mutex; a schedule is ANY list of enabled actions (exec returns None if an action is not
    enabled), for any number of worker threads n and any batch size bs.  q_returned s lists what each Complete() so far
    returned, with the checks added in that session and the checks that actually ran.
-   NOT proved: that the C++ realises these atomic steps (memory model, data races), the prevout fetcher
-   (CoinsViewOverlay) and the UTXO set after connection -- see LEVEL_NOTE of props/C14.py. *)
+   model/ConcFetch.v: the prevout fetcher (CoinsViewOverlay::StartFetching / ProcessInput / FetchCoinFromBase) in the
+   same style.
+   NOT proved: that the C++ realises these atomic steps (memory model, data races) and the UTXO set after connection --
+   see LEVEL_NOTE of props/C14.py. *)
 From Coq Require Import Permutation.
-From BV Require Import lib.Ints model.CheckQueue proofs.CheckQueueInv proofs.CheckQueueStep proofs.CheckQueueMain proofs.CheckQueueLive.
+From BV Require Import lib.Ints model.CheckQueue proofs.CheckQueueInv proofs.CheckQueueStep proofs.CheckQueueMain proofs.CheckQueueLive
+                       model.ConcFetch proofs.ConcFetchLemmas.
 Local Open Scope nat_scope.
 
 (* For EVERY schedule, thread count and batch size: Complete() reports success iff every check added in the session
@@ -87,6 +90,37 @@ Theorem C14_complete_returns_within_mu_steps : forall bs V n l0 s l,
   exec bs V (init n) l0 = Some s -> in_complete s -> all_in_complete bs V s l -> length l <= mu s.
 Proof. intros bs V n l0 s l H. apply complete_returns_within_measure. eapply reachable_inv; eauto. Qed.
 Print Assumptions C14_complete_returns_within_mu_steps.
+
+(* ---- parallel prevout fetching ---- *)
+
+(* For EVERY schedule of the worker threads and of the validation thread's requests, with any number of workers and any
+   request order (in m_inputs order, out of order, for outpoints that are not in m_inputs at all): every value
+   FetchCoinFromBase returns is the base view's answer for that outpoint.  The base is only ever asked through the
+   const PeekCoin: in the model it is a function, so it is unchanged by construction. *)
+Theorem C14_prefetched_coin_is_the_base_coin : forall base inputs n l s o r,
+  frun base (finit inputs n) l = Some s -> In (o, r) (f_results s) -> r = base o.
+Proof. exact fetch_returns_base_coin. Qed.
+Print Assumptions C14_prefetched_coin_is_the_base_coin.
+
+(* Assert(!input.ready.test_and_set()) never fires and no slot is read before its coin was written ... *)
+Theorem C14_fetcher_assertions_never_fire : forall base inputs n l s,
+  frun base (finit inputs n) l = Some s -> f_bug s = false.
+Proof. exact fetch_never_asserts. Qed.
+Print Assumptions C14_fetcher_assertions_never_fire.
+
+(* ... because no input is claimed by two workers ... *)
+Theorem C14_fetcher_claims_are_exclusive : forall base inputs n l s w1 w2 p1 p2 i,
+  frun base (finit inputs n) l = Some s -> nth_error (f_workers s) w1 = Some p1 -> nth_error (f_workers s) w2 = Some p2 ->
+  holds_ix p1 i -> holds_ix p2 i -> w1 = w2.
+Proof. exact fetch_claims_are_exclusive. Qed.
+Print Assumptions C14_fetcher_claims_are_exclusive.
+
+(* ... and the validation thread never waits for ever on a slot: while it waits some step is enabled. *)
+Theorem C14_fetcher_wait_makes_progress : forall base inputs n l s i,
+  0 < n -> frun base (finit inputs n) l = Some s -> f_main s = MWaiting i -> length (f_workers s) = n ->
+  exists a s', fstep base s a = Some s'.
+Proof. exact fetch_wait_makes_progress. Qed.
+Print Assumptions C14_fetcher_wait_makes_progress.
 
 (* Non-vacuity: two workers, batch size 2, a session of five checks one of which fails; a concrete interleaving of the
    master and both workers (here every check happened to run before the failure was published). *)
